@@ -287,7 +287,10 @@ func FieldShapes(t reflect.Type, exact bool) []string {
 		return []string{"dur-pos", "dur-neg", "dur-large", "dur-min"}
 	case t == IriT:
 		return []string{"iri"}
-	case t == MimeT, t == LangT, t == AvtT:
+	case t == AvtT:
+		// formerType and the like: a vocabulary name of every family, the generic names included
+		return []string{"str", "avt-generic", "avt-activity", "avt-collection", "avt-link", "avt-rare"}
+	case t == MimeT, t == LangT:
 		return []string{"str"}
 	case t == SrcT:
 		return []string{"src-mt", "src-c1", "src-cN", "src-mt+c1", "src-mt+cN"}
@@ -350,7 +353,9 @@ func (g *Gen) SetShape(fv reflect.Value, t reflect.Type, shape string) {
 	case t == LangT:
 		fv.Set(reflect.ValueOf(vocab.LangRef([]string{"en", "fr"}[g.R.Intn(2)])))
 	case t == AvtT:
-		fv.Set(reflect.ValueOf(vocab.ActivityVocabularyType([]string{"Note", "Person", "Image"}[g.R.Intn(3)])))
+		names := map[string][]string{"str": {"Note", "Person", "Image"}, "avt-generic": {"Object", "Actor", "Activity", "IntransitiveActivity"}, "avt-activity": {"Create", "TentativeReject", "Travel", "Question"},
+			"avt-collection": {"Collection", "OrderedCollection", "CollectionPage", "OrderedCollectionPage"}, "avt-link": {"Link", "Mention"}, "avt-rare": {"Tombstone", "Relationship", "Profile", "Place", "Service"}}[shape]
+		fv.Set(reflect.ValueOf(vocab.ActivityVocabularyType(names[g.R.Intn(len(names))])))
 	case t == SrcT:
 		s := vocab.Source{}
 		if strings.Contains(shape, "mt") {
